@@ -1,5 +1,6 @@
 import Driver.Util
 import TrimeshVerif.Model.Slice
+import TrimeshVerif.Model.SectionLoops
 open Lean Drv TV.Slice
 namespace Drv.C11
 
@@ -31,9 +32,26 @@ def handle (j : Json) : Except String Json := do
       match t with
       | Json.arr #[a, b, c] => pure (((← jV a), (← jV b), (← jV c)) : TV.Slice.Tri)
       | _ => throw "triangle expected"))
+    -- global structure (C11_section_closed_loops): vertex signs, crossed edges per face, ends per crossed edge
+    let verts ← fldD j "verts" (jList jV) []
+    let faces ← fldD j "faces" (jList (fun f => do
+      match f with
+      | Json.arr #[a, b, c] => pure (((← jNat a), (← jNat b), (← jNat c)) : TV.Topology.Face)
+      | _ => throw "face expected")) []
+    let sgn : Nat → Int := fun v => signR tol (sdistR n o (verts.getD v (0, 0, 0)))
+    let sgnL := (List.range verts.length).map sgn
+    let sgnF : Nat → Int := fun v => sgnL.getD v 0
+    let es := TV.Topology.edgesSorted faces
+    let ends := TV.SectionLoops.allSegEnds sgnF faces
+    let ofE := fun (e : Nat × Nat) => Json.arr #[ofNat e.1, ofNat e.2]
     pure <| obj [("segments", ofList (fun (t : TV.Slice.Tri) => match sectionTri tol n o t with
       | some (p, q) => Json.arr #[ofV p, ofV q]
-      | none => Json.null) ts)]
+      | none => Json.null) ts),
+      ("general", ofBool (sgnL.all (· != 0))),
+      ("closed", ofBool (es.all (fun e => es.count e == 2))),
+      ("seg_edges", ofList (fun f => ofList ofE (TV.SectionLoops.segEdges sgnF f)) faces),
+      ("ends_twice", ofBool (es.all (fun e =>
+        ends.count e == (if TV.SectionLoops.crossing sgnF e then 2 else 0))))]
   | "slice" =>
     let jV := fun (j : Json) => do
       match j with
